@@ -23,7 +23,7 @@ def r15g(rep, prog):
     for fn in prog.fns('parmcb::is_bfs_reachable'):
         if len(fn.param_ids) < 4:
             continue
-        hw, _hs = int_shape(prog, prog.vars[fn.param_ids[3]]['ty'])
+        hw, _hs = int_shape(prog, prog.vars[fn.param_ids[-1]]['ty'])
         what = 'hop counters of is_bfs_reachable are as wide as the hop bound'
         for d in fn.walk():
             if d.k != 'VarDecl' or prog.vars[d.decl_id].get('kind') != 'local':
@@ -48,6 +48,12 @@ def r15g(rep, prog):
     return n
 
 
+def _is_forwarder(fn):
+    """an overload that only forwards to a sibling overload of the same name (judged through that sibling)"""
+    return not [x for x in fn.walk() if x.k in ('WhileStmt', 'ForStmt', 'CXXForRangeStmt')] and \
+        bool([x for x in fn.walk() if x.k == 'CallExpr' and x.callee and x.callee['g'] == fn.g and len(x.args()) != len(fn.param_ids)])
+
+
 def r15f(rep, prog):
     """the bounded BFS answers `true` only for a vertex within the hop bound.  Conditions over the hop bound h are evaluated over
     the four regions of the popped vertex's distance d_u:  A: d_u + 1 < h,  B: d_u + 1 == h,  E: d_u == h,  G: d_u > h.
@@ -63,9 +69,13 @@ def r15f(rep, prog):
     for fn in prog.fns('parmcb::is_bfs_reachable'):
         n += 1
         cfg = fn.cfg
-        hparam = fn.param_ids[3] if len(fn.param_ids) >= 4 else None
-        tparam = fn.param_ids[2] if len(fn.param_ids) >= 3 else None
-        sparam = fn.param_ids[1] if len(fn.param_ids) >= 3 else None
+        # (g, [index map,] s, t, max_hops): the three search parameters are the last three
+        hparam = fn.param_ids[-1] if len(fn.param_ids) >= 4 else None
+        tparam = fn.param_ids[-2] if len(fn.param_ids) >= 3 else None
+        sparam = fn.param_ids[-3] if len(fn.param_ids) >= 3 else None
+        if _is_forwarder(fn):
+            n -= 1
+            continue
         trues = [r for r in ex.returns_of(fn) if r.c and r.c[0].strip_all().cv == 1]
         if not trues or hparam is None:
             rep.undecided('R15f', fn.body, fn, what, 'no `return true` / no hop parameter')
@@ -220,7 +230,9 @@ def r15h(rep, prog):
         cfg = fn.cfg
         if len(fn.param_ids) < 4:
             continue
-        sparam, tparam, hparam = fn.param_ids[1], fn.param_ids[2], fn.param_ids[3]
+        sparam, tparam, hparam = fn.param_ids[-3], fn.param_ids[-2], fn.param_ids[-1]
+        if _is_forwarder(fn):
+            continue
         pushes = [x for x in fn.walk() if x.k == 'CXXMemberCallExpr' and x.callee and x.callee['name'] in ('push', 'push_back', 'emplace', 'emplace_back')
                   and (prog.base_type(x.object_arg().strip_all().j.get('t')) or {}).get('rec') in ('std::queue', 'std::deque', 'std::list', 'std::vector')
                   and x.args() and ex.var_of(x.args()[0]) not in (None, sparam)]
